@@ -782,14 +782,10 @@ func (e *Engine) findIndicesBoundedBacktrackerAt(haystack []byte, at int) (int, 
 	remaining := haystack[at:]
 
 	// V11-002 ASCII optimization.
-	// For start-anchored patterns, limit the IsASCII check to a small prefix
-	// to avoid O(n) scan of the entire input when only position 0 matters.
+	// The ASCII engine's `.` does not accept non-ASCII bytes, so all of the
+	// searched input has to be ASCII, also for start-anchored patterns.
 	if e.asciiBoundedBacktracker != nil {
-		asciiCheck := remaining
-		if e.isStartAnchored && len(asciiCheck) > 4096 {
-			asciiCheck = asciiCheck[:4096]
-		}
-		if simd.IsASCII(asciiCheck) {
+		if simd.IsASCII(remaining) {
 			if !e.asciiBoundedBacktracker.CanHandle(len(remaining)) {
 				if e.dfa != nil && e.reverseDFA != nil {
 					return e.findIndicesBidirectionalDFALongest(haystack, at)
@@ -1235,14 +1231,10 @@ func (e *Engine) findIndicesBoundedBacktrackerAtWithState(haystack []byte, at in
 	remaining := haystack[at:]
 
 	// V11-002 ASCII optimization.
-	// For start-anchored patterns, limit the IsASCII check to a small prefix
-	// to avoid O(n) scan of the entire input when only position 0 matters.
+	// The ASCII engine's `.` does not accept non-ASCII bytes, so all of the
+	// searched input has to be ASCII, also for start-anchored patterns.
 	if e.asciiBoundedBacktracker != nil {
-		asciiCheck := remaining
-		if e.isStartAnchored && len(asciiCheck) > 4096 {
-			asciiCheck = asciiCheck[:4096]
-		}
-		if simd.IsASCII(asciiCheck) {
+		if simd.IsASCII(remaining) {
 			if !e.asciiBoundedBacktracker.CanHandle(len(remaining)) {
 				// Bidirectional DFA: O(n) vs PikeVM's O(n*states)
 				if e.dfa != nil && e.reverseDFA != nil {
